@@ -603,12 +603,27 @@ func genCase(seed int64, id int, o GenOpts) *Case {
 		c.Lookback = 300_000
 		c.Procs = pick(r, []int{2, 8, 16})
 		i := 0
+		variant := r.Intn(6) // 0-2 regular; 3 no +Inf bucket for foo{a="y"}; 4 non-monotonic counts; 5 gaps and a non-numeric le
 		for _, name := range []string{"foo", "bar"} {
 			for _, a := range []string{"x", "y"} {
-				for k, le := range []string{"0.1", "1", "+Inf"} {
+				les := []string{"0.1", "1", "+Inf"}
+				if variant == 3 && name == "foo" && a == "y" {
+					les = []string{"0.1", "1", "5"}
+				}
+				if variant == 5 && name == "bar" && a == "x" {
+					les = []string{"0.1", "1", "+Inf", "many"}
+				}
+				for k, le := range les {
 					var smp []Sample
 					for t := c.Window.Start - 200_000; t <= c.Window.End+10_000; t += 15_000 {
-						smp = append(smp, Sample{T: t + int64(i%2), V: float64((k + 1) * (3 + i%4)) + float64(t/15_000%7)})
+						v := float64((k + 1) * (3 + i%4)) + float64(t/15_000%7)
+						if variant == 4 && k == 1 && (t/15_000)%3 == 0 {
+							v = 1 // below the previous bucket: non-monotonic
+						}
+						if variant == 5 && (t/15_000+int64(i))%5 == 0 {
+							continue // this bucket is missing around t
+						}
+						smp = append(smp, Sample{T: t + int64(i%2), V: v})
 					}
 					c.Data = append(c.Data, SeriesData{Labels: labels.FromStrings("__name__", name, "a", a, "le", le), Samples: smp})
 					i++
@@ -616,7 +631,7 @@ func genCase(seed int64, id int, o GenOpts) *Case {
 			}
 		}
 		sel := pick(r, []string{"foo", "bar", `{__name__=~"foo|bar"}`, `foo{a="x"}`, `{__name__=~"foo|bar",a="y"}`, "sum by (le, a) (foo)", "sum by (le) (rate(foo[1m]))"})
-		c.Query = fmt.Sprintf("histogram_quantile(%s, %s)", pick(r, []string{"0.5", "0.9", "0", "1", "scalar(foo{le=\"1\",a=\"x\"}) / 100"}), sel)
+		c.Query = fmt.Sprintf("histogram_quantile(%s, %s)", pick(r, []string{"0.5", "0.9", "0", "1", "scalar(foo{le=\"1\",a=\"x\"}) / 100", "-0.5", "1.5", "NaN", "0.999"}), sel)
 		return c
 	}
 	if o.Focus == "pairs" {
